@@ -213,6 +213,9 @@ func (c *Chunk) record(chunk pb.Chunk) *tracked {
 		validator := rsm.NewSnapshotValidator()
 		if c.validate && !chunk.HasFileInfo {
 			if !validator.AddChunk(chunk.Data, chunk.ChunkId) {
+				// the temp directory of the stream tracked so far, if any, has just
+				// been removed above, it must not be left tracked
+				c.resetLocked(key)
 				return nil
 			}
 		}
